@@ -297,6 +297,10 @@ class Ctx:
         self.t0 = time.time()
         self.dir = os.path.join(WORK, prop)
         os.makedirs(self.dir, exist_ok=True)
+        # two runs of the same check share .work/<prop> and the evidence file: serialise them
+        os.makedirs(os.path.join(WORK, "locks"), exist_ok=True)
+        self._runlock = open(os.path.join(WORK, "locks", "check-%s.lock" % prop), "w")
+        fcntl.flock(self._runlock, fcntl.LOCK_EX)
         self.coverage = {}
         self.assumptions = []
         self.violations = []      # dicts: key, what, replay (dict written to file)
